@@ -14,7 +14,7 @@ import (
 
 type C15Case struct {
 	Spec    *GenSpec `json:"spec"`
-	P       int      `json:"p"`                // concurrent checks
+	P       int      `json:"p"`                 // concurrent checks
 	Strings []int    `json:"strings,omitempty"` // per check: call String() before draw number k (-1: never)
 	Seed    uint64   `json:"seed"`
 	Checks  int      `json:"checks"`
